@@ -289,3 +289,17 @@ def vstr(e) -> str:
     out = VStr(base)
     out._views = tuple(unparse(v).replace(" ", "").replace("\n", "") for v in V.views[1:])
     return out
+
+
+def assigned_values(repo: Repo, ci, fn, target_path: str, stop=frozenset()):
+    """normalised texts of the values assigned to `target_path` in fn, with temporaries replaced by their definitions (def-use expansion on the
+    structural normal form); [] if never assigned"""
+    from ..flow import Expander
+    from ..pattern import norm
+    v = canon_fn(repo, ci, fn, 1)
+    ex = Expander(v)
+    out = []
+    for n in ex.cfg.nodes:
+        if n.kind == "stmt" and isinstance(n.ast, ast.Assign) and any(path_of(t) == target_path for t in n.ast.targets):
+            out.append(norm(ex.expand(n.ast.value, n, stop=stop)))
+    return out
